@@ -33,4 +33,13 @@ MUTANTS = [
     {"pid": "C29", "name": "response-length-body-eats-rest", "edits": [(HC, "            self.body = self.msg[:self.length]\n            del self.msg[:self.length]", "            self.body = self.msg[:self.length]\n            del self.msg[:]")]},
     {"pid": "C29", "name": "chunk-data-waits-only-once", "edits": [(HT, "        while len(raw) < size:  # need more for chunk\n            (yield None)", "        if len(raw) < size:  # need more for chunk\n            (yield None)")]},
     {"pid": "C29", "name": "chunk-size-base10", "edits": [(HT, "        size = int(size.strip().decode('ascii'), 16)", "        size = int(size.strip().decode('ascii'), 10)")]},
+    # C33
+    {"pid": "C33", "name": "parseline-no-crlf-skip", "edits": [(HT, "        if crlfable and eol == CR and index == len(raw):\n            skip = True", "        pass")]},
+    {"pid": "C33", "name": "sse-strip-all-leading-spaces", "edits": [(HT, "            if value and value[0:1] == b' ':\n                del value[0]", "            value = value.lstrip()")]},
+    {"pid": "C33", "name": "sse-id-not-persistent", "edits": [(HT, "                ename = u''\n                edata = u''\n                parts = []\n                ejson = None\n                continue", "                ename = u''\n                edata = u''\n                parts = []\n                ejson = None\n                eid = None\n                continue")]},
+    # C31
+    {"pid": "C31", "name": "responder-reset-leaves-headed", "edits": [(HS, "        self.started = False\n        self.headed = False\n        self.chunked = False\n        self.ended = False\n        self.iterator = None", "        self.started = False\n        self.chunked = False\n        self.ended = False\n        self.iterator = None")]},
+    {"pid": "C31", "name": "patron-waited-never-cleared", "edits": [(HC, "                        self.responses.append(response)\n                        self.waited = False", "                        self.responses.append(response)")]},
+    {"pid": "C31", "name": "responder-reset-chunkable-none", "edits": [(HS, "                        responder.reset(environ=environ, chunkable=chunkable)", "                        responder.reset(environ=environ)")]},
+    {"pid": "C29", "name": "requestant-body-eats-next-byte", "edits": [(HS, "            self.body = self.msg[:self.length]\n            del self.msg[:self.length]", "            self.body = self.msg[:self.length]\n            del self.msg[:self.length + (1 if self.length else 0)]")]},
 ]
